@@ -1006,6 +1006,7 @@ func (s *UDPSession) packetInput(data []byte) {
 	case *aeadCrypt:
 		nonceSize := block.NonceSize()
 		if len(data) < nonceSize+block.Overhead() {
+			verifEv("s.in", s, 1, 0, 0)
 			return
 		}
 
@@ -1015,6 +1016,7 @@ func (s *UDPSession) packetInput(data []byte) {
 		plaintext, err := block.Open(ciphertext[:0], nonce, ciphertext, nil)
 		if err != nil {
 			atomic.AddUint64(&DefaultSnmp.InCsumErrors, 1)
+			verifEv("s.in", s, 2, 0, 0)
 			return
 		}
 
@@ -1022,6 +1024,7 @@ func (s *UDPSession) packetInput(data []byte) {
 	default:
 		// decryption and crc32 check
 		if len(data) < cryptHeaderSize {
+			verifEv("s.in", s, 1, 0, 0)
 			return
 		}
 
@@ -1031,6 +1034,7 @@ func (s *UDPSession) packetInput(data []byte) {
 		checksum := crc32.ChecksumIEEE(data[crcSize:])
 		if checksum != binary.LittleEndian.Uint32(data) {
 			atomic.AddUint64(&DefaultSnmp.InCsumErrors, 1)
+			verifEv("s.in", s, 2, 0, 0)
 			return
 		}
 
@@ -1041,6 +1045,7 @@ func (s *UDPSession) packetInput(data []byte) {
 	// NOTE: OOB allows sending small packets and even empty packets.
 	if len(data) < min(IKCP_OVERHEAD, fecHeaderSizePlus2+convSize) {
 		atomic.AddUint64(&DefaultSnmp.KCPInErrors, 1)
+		verifEv("s.in", s, 3, 0, 0)
 		return
 	}
 
@@ -1068,11 +1073,13 @@ func (s *UDPSession) kcpInput(data []byte) {
 	case typeData, typeParity: // packet with FEC
 		if len(data) < fecHeaderSizePlus2 {
 			atomic.AddUint64(&DefaultSnmp.InErrs, 1)
+			verifEv("s.in", s, 4, 0, 0)
 			return
 		}
 
 		var kcpInErrors uint64
 		f := fecPacket(data)
+		verifEv("s.in", s, 5+verifB(f.flag() == typeParity), 0, 0)
 
 		// lock
 		s.mu.Lock()
@@ -1127,6 +1134,7 @@ func (s *UDPSession) kcpInput(data []byte) {
 	case typeOOB:
 		// Count received OOB packet
 		atomic.AddUint64(&DefaultSnmp.OOBPackets, 1)
+		verifEv("s.in", s, 8, 0, 0)
 		// If an OOB callback is registered, invoke it synchronously.
 		// The callback is responsible for ensuring non-blocking behavior.
 		if callback := s.callbackForOOB.Load(); callback != nil {
@@ -1135,9 +1143,11 @@ func (s *UDPSession) kcpInput(data []byte) {
 			if binary.LittleEndian.Uint32(data[fecHeaderSizePlus2:]) != s.kcp.conv {
 				return
 			}
+			verifEv("s.in", s, 7, 0, 0)
 			callback.(OOBCallBackType)(data[fecHeaderSizePlus2+convSize:])
 		}
 	default: // packet without FEC
+		verifEv("s.in", s, 9, 0, 0)
 		s.mu.Lock()
 		defer s.mu.Unlock()
 
